@@ -8,7 +8,7 @@ cd "$(dirname "$0")/.."
 T=$(mktemp -d /tmp/bbfcov.XXXXXX)
 B=$(dirname "$(rustup +nightly which rustc)")/../lib/rustlib/x86_64-unknown-linux-gnu/bin
 for p in C01 C02 C03 C04 C05 C06 C07 C08 C09 C10 C11 C12 C13 C14 C15 C16 C17 C18 C19 C20; do ./vp corr $p >/dev/null 2>&1 || true; done
-(cd harness && CARGO_NET_OFFLINE=true CARGO_TARGET_DIR=$T/target RUSTFLAGS="-C instrument-coverage" cargo +nightly build --offline 2>&1 | tail -1)
+(cd harness && LLVM_PROFILE_FILE=$T/build-%p.profraw CARGO_NET_OFFLINE=true CARGO_TARGET_DIR=$T/target RUSTFLAGS="-C instrument-coverage" cargo +nightly build --offline 2>&1 | tail -1)
 ls build/cases/C*/shard*.case | xargs -P 12 -I{} bash -c "ulimit -s unlimited; LLVM_PROFILE_FILE=$T/prof/%p-%m.profraw timeout 600 $T/target/debug/bbf-harness {} >/dev/null 2>&1 || true"
 $B/llvm-profdata merge -sparse $T/prof/*.profraw -o $T/cov.profdata
 $B/llvm-cov report $T/target/debug/bbf-harness -instr-profile=$T/cov.profdata --ignore-filename-regex='(registry|rustc|harness|rustup)' | awk '{printf "%-55s regions %5s missed %4s  functions %4s missed %3s  lines %5s missed %4s\n", $1, $2, $3, $5, $6, $8, $9}'
